@@ -236,6 +236,9 @@ class Iface(Ty):
     def __init__(self, iface):
         self.iface = iface
 
+    def resolved(self):
+        return self.iface() if isinstance(self.iface, types.FunctionType) else self.iface
+
     def make(self, interp, name):
         iface = self.iface() if isinstance(self.iface, types.FunctionType) else self.iface
         return new_opaque(interp, iface, name)
@@ -275,9 +278,9 @@ class ListOf(Ty):
         elem_ty = self.elem
 
         def elem(interp2, idx_term, uid=uid):
-            return make_indexed(interp2, elem_ty, uid + '[]', (idx_term,))
+            return make_indexed(interp2, elem_ty, uid, idx_term)
 
-        xs = SList(n, elem, uid)
+        xs = SList(n, elem, uid, ident=(uid, ()))
         xs.elem_ty = elem_ty
         return xs
 
@@ -289,13 +292,40 @@ class ListOf(Ty):
         return [self.elem.concrete(cx, '%s[%d]' % (name, i)) for i in range(n)]
 
 
+class MapOf(Ty):
+    """dict with symbolic contents (unbounded): keys of shape ``key`` (Str / Int), values of shape ``val``
+    (Str / Int / Bool, or ``Iface`` of a by-id interface).  Supports in, [], []=, del, get, pop,
+    setdefault, update, copy, dict(d), copy.copy(d), ==, clear; not iteration / len.
+    Opaque keys: objects whose interface names the attribute that decides their equality (``map_key``).
+    A value shape without scalar sort (``Any_``, an interface that is not by-id; default) means that the
+    values are not tracked: only the key set is symbolic, a read gives an arbitrary value of that shape."""
+
+    def __init__(self, key, val=None):
+        self.key = key
+        self.val = val
+
+    def make(self, interp, name):
+        from . import models
+        return models.new_smap(interp, name, self.key, self.val)
+
+
+class Derived:
+    """Interface attribute computed from the object by a sidecar function (interpreted on every read),
+    e.g. a property of the real class that only combines other attributes."""
+
+    def __init__(self, fn):
+        self.fn = fn
+
+
 class MListOf(Ty):
-    """A *mutable* list of symbolic length whose elements are ints / bools / strings or tuples of these
+    """A *mutable* list of symbolic length whose elements are ints / bools / strings, tuples of these, optional
+    values, indexed opaque objects (`RefTo`), opaque objects with an `mlist_codec`, or records (`Inst`) of these
     (pyvc.mlist.MList): results accumulated in loops, out-parameters.  In `M.loop(... modifies=...)` the
     list is havocked in place."""
 
-    def __init__(self, elem):
+    def __init__(self, elem, deque=False):
         self.elem = elem
+        self.deque = deque      # a collections.deque (without maxlen): additionally popleft / appendleft
 
     def shape(self):
         return _mshape(self.elem)
@@ -306,21 +336,45 @@ class MListOf(Ty):
         n = interp.st.fresh_int(name + '.len')
         interp.st.assume(n >= 0)
         m.length = n
+        m.is_deque = self.deque
         return m
 
     def concrete(self, cx, name):
         return ListOf(self.elem).concrete(cx, name)
 
 
+class RefTo(Ty):
+    """Element type for MListOf: an opaque object that is a function of `arity` integer index terms -- an element
+    of the symbolic sequence of interface objects whose uid is `uid[:-2]` (uid ends in '[]'), or the structured
+    result of a pure interface method ('<object uid>.<method>()')."""
+
+    def __init__(self, iface, uid, arity=1):
+        self.iface, self.uid, self.arity = iface, uid, arity
+
+
 def _mshape(ty):
     if isinstance(ty, FixedList):
         return ('tuple', tuple(_mshape(t) for t in ty.elems))
+    if isinstance(ty, Opt):
+        return ('opt', _mshape(ty.inner))
+    if isinstance(ty, RefTo):
+        return ('ref', ty.iface, ty.uid, ty.arity)
+    if isinstance(ty, Iface):
+        iface = ty.iface() if isinstance(ty.iface, types.FunctionType) else ty.iface
+        if getattr(iface, 'mlist_codec', None) is not None:
+            return ('codec', iface)
+    if isinstance(ty, Inst):
+        return ('inst', ty.cls, tuple((k, _mshape(t)) for k, t in ty.fields.items()))
     if isinstance(ty, _Int):
         return ('int',)
     if isinstance(ty, _Bool):
         return ('bool',)
     if isinstance(ty, _Str):
         return ('str',)
+    if isinstance(ty, Iface):
+        from .mlist import record_shape
+        iface = ty.iface() if isinstance(ty.iface, types.FunctionType) else ty.iface
+        return record_shape(iface)
     raise Unsupported('MListOf element type %r' % (ty,))
 
 
@@ -328,31 +382,21 @@ class IterOf(Ty):
     """An iterator over a sequence of symbolic length (e.g. the lines of a file), positioned at its start.
     In clauses: `it.xs` is the underlying sequence, `it.pos` the number of items consumed so far."""
 
-    def __init__(self, elem):
+    def __init__(self, elem, at_start=True):
         self.elem = elem
+        self.at_start = at_start      # False: an arbitrary number of items has been consumed already
 
     def make(self, interp, name):
         from .models import SIter
-        return SIter(ListOf(self.elem).make(interp, name), 0)
+        xs = ListOf(self.elem).make(interp, name)
+        if self.at_start:
+            return SIter(xs, 0)
+        p = interp.st.fresh_int(name + '.pos')
+        interp.st.assume(z3.And(p >= 0, p <= xs.length))
+        return SIter(xs, SInt(p))
 
     def concrete(self, cx, name):
         return iter(ListOf(self.elem).concrete(cx, name))
-
-
-class MapOf(Ty):
-    """A dict with symbolic key set (`in`, `[]`, `[]=`, `del`, `get`, `pop`).  ``key`` is Int or Str (opaque
-    objects are keyed by the attribute their interface names in ``map_key``); values are not tracked:
-    a read gives an arbitrary value of shape ``value``."""
-
-    def __init__(self, key, value=None):
-        self.key = key
-        self.value = value
-
-    def make(self, interp, name):
-        from .models import SMap
-        ks = z3.StringSort() if isinstance(self.key, _Str) else z3.IntSort()
-        uid = interp.st.fresh_name(name)
-        return SMap(ks, None, z3.Array(uid + '.has', ks, z3.BoolSort()), None, uid, vty=self.value)
 
 
 class FixedList(Ty):
@@ -432,14 +476,45 @@ class Dependent(Ty):
         return self.fn(interp, name, env)
 
 
-def make_indexed(interp, ty, base, idx):
-    """Value of shape ``ty`` at the symbolic index tuple ``idx`` (element of an SList, attribute of an
-    indexed opaque object): scalars become applications of uninterpreted functions named ``base`` to the
-    index, so equal indices give equal values; composite shapes are built field by field."""
+def make_indexed(interp, ty, uid, idx_term, prefix=()):
+    """Element of an SList at a symbolic index: scalar fields become applications of
+    uninterpreted functions to the index, so equal indices give equal elements.
+    ``prefix``: index terms of the owner when the list is itself an attribute of an indexed object."""
     st = interp.st
-    if not isinstance(idx, tuple):
-        idx = (idx,)
-    sorts = [x.sort() for x in idx]
+    idx = tuple(prefix) + (idx_term,)
+    sorts = [x.sort() if hasattr(x, "sort") else z3.IntSort() for x in idx]
+    if isinstance(ty, _Int):
+        f = z3.Function(uid + '[]', *(sorts + [z3.IntSort()]))
+        t = f(*idx)
+        if ty.lo is not None:
+            st.assume_unscoped(t >= ty.lo)
+        if ty.hi is not None:
+            st.assume_unscoped(t <= ty.hi)
+        return SInt(t)
+    if isinstance(ty, _Bool):
+        f = z3.Function(uid + '[]', *(sorts + [z3.BoolSort()]))
+        return SBool(f(*idx))
+    if isinstance(ty, _Str):
+        f = z3.Function(uid + '[]', *(sorts + [z3.StringSort()]))
+        return SStr(f(*idx))
+    if isinstance(ty, Iface):
+        iface = ty.iface() if isinstance(ty.iface, types.FunctionType) else ty.iface
+        return new_opaque(interp, iface, uid + '[]', index=idx)
+    if isinstance(ty, Opaq):
+        return OpaqueVal('%s[%s]' % (uid, ','.join(str(z3.simplify(t)) for t in idx)))
+    if isinstance(ty, FixedList):
+        vals = [make_indexed(interp, t, '%s.%d' % (uid, i), idx_term, prefix) for i, t in enumerate(ty.elems)]
+        return tuple(vals) if ty.as_tuple else vals
+    return indexed_value(interp, ty, uid + '[]', idx)
+
+
+def indexed_value(interp, ty, base, idx):
+    """A value of shape ``ty`` that is a function of the index tuple ``idx`` (element of a symbolic-length
+    sequence, or a component of such an element): scalars are applications of uninterpreted functions
+    named after ``base``, real instances (`Inst`) are built from indexed fields."""
+    st = interp.st
+    idx = tuple(idx)
+    sorts = [x.sort() if hasattr(x, 'sort') else z3.IntSort() for x in idx]
     if isinstance(ty, _Int):
         t = z3.Function(base, *(sorts + [z3.IntSort()]))(*idx)
         if ty.lo is not None:
@@ -453,7 +528,7 @@ def make_indexed(interp, ty, base, idx):
         return SStr(z3.Function(base, *(sorts + [z3.StringSort()]))(*idx))
     if isinstance(ty, Opt):
         isn = z3.Function(base + '.is_none', *(sorts + [z3.BoolSort()]))(*idx)
-        return SOpt(isn, make_indexed(interp, ty.inner, base, idx))
+        return SOpt(isn, indexed_value(interp, ty.inner, base, idx))
     if isinstance(ty, Const):
         return ty.value
     if isinstance(ty, OneOf):
@@ -472,40 +547,36 @@ def make_indexed(interp, ty, base, idx):
     if isinstance(ty, Inst):
         cls = ty.cls
         if ty.tuple_items is not None:
-            obj = tuple.__new__(cls, [make_indexed(interp, t, '%s[%d]' % (base, i), idx)
+            obj = tuple.__new__(cls, [indexed_value(interp, t, '%s[%d]' % (base, i), idx)
                                       for i, t in enumerate(ty.tuple_items)])
         elif issubclass(cls, BaseException):
             obj = cls.__new__(cls)
         else:
             obj = object.__new__(cls)
         for k, t in ty.fields.items():
-            v = make_indexed(interp, t, '%s.%s' % (base, k), idx) if isinstance(t, Ty) else t
+            v = indexed_value(interp, t, '%s.%s' % (base, k), idx) if isinstance(t, Ty) else t
             object.__setattr__(obj, k, v)
         if ty.invariant is not None:
             st.assume_unscoped(interp.truth(interp.call(ty.invariant, [obj], {})))
         return obj
     if isinstance(ty, FixedList):
-        vals = [make_indexed(interp, t, '%s[%d]' % (base, i), idx) for i, t in enumerate(ty.elems)]
+        vals = [indexed_value(interp, t, '%s[%d]' % (base, i), idx) for i, t in enumerate(ty.elems)]
         return tuple(vals) if ty.as_tuple else vals
     if isinstance(ty, FixedDict):
-        return {k: make_indexed(interp, t, '%s[%s]' % (base, k), idx) for k, t in ty.fields.items()}
+        return {k: indexed_value(interp, t, '%s[%s]' % (base, k), idx) for k, t in ty.fields.items()}
     if isinstance(ty, ListOf):
         n = z3.Function(base + '.len', *(sorts + [z3.IntSort()]))(*idx)
         st.assume_unscoped(n >= ty.min_len)
         elem_ty = ty.elem
 
         def elem(interp2, idx_term, base=base, idx=idx):
-            return make_indexed(interp2, elem_ty, base + '[]', idx + (idx_term,))
+            return indexed_value(interp2, elem_ty, base + '[]', tuple(idx) + (idx_term,))
 
-        out = SList(n, elem, '%s(%s)' % (base, ','.join(z3.simplify(i).sexpr() for i in idx)))
-        out.key = (base, idx)
+        out = SList(n, elem, '%s<%s>' % (base, ','.join(z3.simplify(i).sexpr() for i in idx)),
+                    ident=(base, tuple(idx)))
+        out.elem_ty = elem_ty
         return out
     raise Unsupported('indexed element of type %r' % (ty,))
-
-
-def indexed_value(interp, ty, base, idx):
-    """(name used on main) a value of shape ``ty`` that is a function of the index tuple ``idx``"""
-    return make_indexed(interp, ty, base, tuple(idx))
 
 
 # ============================================================================ interfaces (opaque objects)
@@ -546,12 +617,43 @@ class Interface:
     attrs = {}
     attr_raises = {}
     methods = {}
+    computed = {}          # {name: fn(interp, obj) -> value}: attributes that are functions of the object
     invariant = None
     truthy = True
 
 
-def new_opaque(interp, iface, name, index=(), preset=None):
+def universe_of(iface):
+    """Name of the id space of a by-id interface: shared by all its sub-interfaces."""
+    root = iface
+    for k in iface.__mro__:
+        if k.__dict__.get('by_id'):
+            root = k
+    return 'U.' + root.__name__
+
+
+def opaque_of_id(interp, iface, id_term):
+    """The object of by-id interface ``iface`` with the given id: all its attributes are functions of the id."""
+    return new_opaque(interp, iface, universe_of(iface), index=(id_term,), _is_id=True)
+
+
+def same_object(a, b):
+    """Identity of two opaque objects where the engine can tell: by-id objects of one universe."""
+    ia, ib = a._pv_iface, b._pv_iface
+    if getattr(ia, 'by_id', False) and getattr(ib, 'by_id', False) and isinstance(ia, type) and isinstance(ib, type):
+        if universe_of(ia) == universe_of(ib) and len(a._pv_index) == 1 and len(b._pv_index) == 1:
+            return wrap(a._pv_index[0] == b._pv_index[0])
+    return None
+
+
+def new_opaque(interp, iface, name, index=(), preset=None, _is_id=False):
     st = interp.st
+    if getattr(iface, 'by_id', False) and not _is_id:
+        # objects identified by an integer id (ghost address): a fresh id, or a function of the owner's index
+        if index:
+            idt = z3.Function(name + ".id", *([x.sort() for x in index] + [z3.IntSort()]))(*index)
+        else:
+            idt = st.fresh_int(name + '.id')
+        name, index = universe_of(iface), (idt,)
     uid = st.fresh_name(name) if not index else name
     o = Opaque(iface, uid)
     o.__dict__['_pv_index'] = tuple(index)
@@ -596,10 +698,31 @@ def _iface_lookup(iface, table, name):
 def _indexed_scalar(interp, o, name, ty):
     """Attribute of an indexed opaque: function of the index."""
     idx = o._pv_index
+    st = interp.st
     base = '%s.%s' % (o._pv_uid, name)
+    sorts = [x.sort() for x in idx]
     if isinstance(ty, Involution):
         return ty.make_attr(interp, base, o, index=idx)
-    return make_indexed(interp, ty, base, idx)
+    if isinstance(ty, Iface):
+        iface = ty.iface() if isinstance(ty.iface, types.FunctionType) else ty.iface
+        return new_opaque(interp, iface, base, index=idx)
+    if isinstance(ty, OneOf):
+        t = z3.Function(base + '.idx', *(sorts + [z3.IntSort()]))(*idx)
+        st.assume_unscoped(z3.And(t >= 0, t < len(ty.values)))
+        return SChoice(t, ty.values) if len(ty.values) > 1 else ty.values[0]
+    if isinstance(ty, Const):
+        return ty.value
+    if isinstance(ty, ListOf):
+        n = z3.Function(base + '.len', *(sorts + [z3.IntSort()]))(*idx)
+        st.assume_unscoped(n >= ty.min_len)
+        elem_ty = ty.elem
+
+        def elem(interp2, j, base=base, idx=idx):
+            return make_indexed(interp2, elem_ty, base, j, prefix=idx)
+
+        return SList(n, elem, '%s<%s>' % (base, ','.join(z3.simplify(t).sexpr() for t in idx)),
+                     ident=(base, tuple(idx)))
+    return indexed_value(interp, ty, base, idx)
 
 
 class Registry:
@@ -609,12 +732,16 @@ class Registry:
         self.contracts = {}        # qualified name -> Contract
         self.by_func = {}          # function object -> Contract
         self.models = {}           # callable -> model
+        self.scoped_models = {}    # property id -> {callable -> model}: Module.model(...) registrations apply only
+        #                            while a function of that property is verified (no cross-property clashes)
+        self.current_props = ()    # property ids of the function under verification
         self.loops = {}            # (qualified name, ordinal) -> LoopSpec
         self.loops_by_code = {}
         self.under_verification = None
         self.ghost_env = {}
         self.transparent = set()
         self.missing = []
+        self.local_shapes = {}     # FuncInfo -> {local name: MListOf}
 
     # ----- registration ---------------------------------------------------------
     def add_contract(self, c):
@@ -651,6 +778,11 @@ class Registry:
             c.raw = obj
             self.by_func.setdefault(f, []).append(c)
             c.returns_value = None
+            if c.locals:
+                try:
+                    self.local_shapes[frontend.funcinfo_of(f)] = c.locals
+                except Exception as e:
+                    self.missing.append((q, 'locals=: cannot locate the source (%s)' % e))
         self.loops_by_code = {}
         for (q, ordinal), ls in self.loops.items():
             try:
@@ -695,6 +827,19 @@ class Registry:
 
     def model_for(self, f):
         try:
+            # a callable modelled by several sidecar modules: the module whose function is being verified sees
+            # its own model; then the models of the modules it builds on (python imports between sidecar
+            # modules: C03 builds on C01's models, C17 on C04's); the ghost file system of C04 and the path
+            # model of C12 do not see each other
+            cur = getattr(self, 'current_module', None)
+            own = getattr(self, 'module_models', {}).get(cur)
+            m = own.get(f) if own else None
+            if m is not None:
+                return m
+            for p in getattr(self, 'current_scope', None) or getattr(self, 'current_props', ()):
+                m = self.scoped_models.get(p, {}).get(f)
+                if m is not None:
+                    return m
             m = self.models.get(f)
             if m is None:
                 # library models registered with pyvc.models.model(...) (also for the ghost primitives of
@@ -717,6 +862,8 @@ class Registry:
         if name in o._pv_attrs:
             return o._pv_attrs[name]
         ty = _iface_lookup(iface, 'attrs', name)
+        if isinstance(ty, Derived):
+            return interp.call(ty.fn, [o], {})
         if ty is not None:
             if o._pv_index:
                 v = _indexed_scalar(interp, o, name, ty)
@@ -724,6 +871,12 @@ class Registry:
                 v = ty.make_attr(interp, '%s.%s' % (o._pv_uid, name), o)
             else:
                 v = ty.make(interp, '%s.%s' % (o._pv_uid, name)) if isinstance(ty, Ty) else ty
+            o._pv_attrs[name] = v
+            return v
+        comp = _iface_lookup(iface, 'computed', name)
+        if comp is not None:
+            # an attribute that is a function of the object: computed on first access, then cached
+            v = comp(interp, o)
             o._pv_attrs[name] = v
             return v
         m = _iface_lookup(iface, 'methods', name)
@@ -741,7 +894,8 @@ class Registry:
 
     def opaque_has(self, interp, o, name):
         iface = o._pv_iface
-        return _iface_lookup(iface, 'attrs', name) is not None or _iface_lookup(iface, 'methods', name) is not None
+        return _iface_lookup(iface, 'attrs', name) is not None or _iface_lookup(iface, 'methods', name) is not None \
+            or _iface_lookup(iface, 'computed', name) is not None
 
     def opaque_type(self, interp, o):
         return o._pv_cls
@@ -883,8 +1037,6 @@ def call_opaque_method(interp, o, name, m, args, kwargs):
         st.emit(m.event, o, tuple(args))
     key = None
     if m.pure:
-        # the result is a function of (object, arguments): scalar arguments and the indices of opaque
-        # arguments become arguments of the uninterpreted function(s) that stand for the result
         flat = []
         for a in args:
             if isinstance(a, tuple) and all(isinstance(x, (SInt, SBool, SStr, int, str, bool)) for x in a):
@@ -892,22 +1044,14 @@ def call_opaque_method(interp, o, name, m, args, kwargs):
             else:
                 flat.append(a)
         args = flat
-        name_parts, idx_terms, keyparts, functional = [], list(o._pv_index), [], True
-        for a in args:
-            if isinstance(a, (SInt, SBool, SStr, int, str, bool)):
-                idx_terms.append(to_z3(a))
-                keyparts.append(z3.simplify(to_z3(a)).sexpr())
-            elif isinstance(a, Opaque):
-                name_parts.append(a._pv_uid)
-                idx_terms.extend(a._pv_index)
-                keyparts.append((a._pv_uid, tuple(z3.simplify(i).sexpr() for i in a._pv_index)))
-            else:
-                functional = False
-                keyparts.append(id(a))
-        key = ('__call__', name, tuple(keyparts))
+        key = ('__call__', name, tuple(z3.simplify(to_z3(a)).sexpr() if isinstance(a, (Sym, int, str, bool))
+                                        and not isinstance(a, (SOpt, SChoice, SList)) else id(a) for a in args))
+        # a pure method is a function of (object, arguments): the outcome of an earlier call -- value or
+        # exception -- is the outcome of this one
         if key in o._pv_attrs:
-            # a pure method is a function: having returned once it returns the same again (and does not raise)
             return o._pv_attrs[key]
+        if ('__raised__', key) in o._pv_attrs:
+            raise PyRaise(o._pv_attrs[('__raised__', key)])
     if m.may_raise:
         k = st.choose(1 + len(m.may_raise))
         if k > 0:
@@ -915,16 +1059,54 @@ def call_opaque_method(interp, o, name, m, args, kwargs):
             exc = factory(interp, o) if isinstance(factory, types.FunctionType) else factory()
             if m.event is not None:
                 st.emit(m.event + ':raised', o, exc)
+            if key is not None:
+                o._pv_attrs[('__raised__', key)] = exc
             raise PyRaise(exc)
     if m.pure:
-        base = '%s.%s(%s)' % (o._pv_uid, name, ','.join(name_parts))
-        if m.returns is None:
-            r = None
-        elif functional and idx_terms:
-            r = make_indexed(interp, m.returns, base, tuple(idx_terms))
+        terms = _pure_arg_terms(interp, args)
+        scalar_args = all(isinstance(a, (SInt, SBool, SStr, int, str, bool)) for a in args)
+        if terms is not None and isinstance(m.returns, (_Int, _Bool, _Str)):
+            # a ghost function of (object, arguments): scalars, by-id objects (their id), symbolic maps (their arrays)
+            sorts = [x.sort() for x in o._pv_index] + [t.sort() for t in terms]
+            rs = {_Int: z3.IntSort(), _Bool: z3.BoolSort(), _Str: z3.StringSort()}[type(m.returns)]
+            f = z3.Function('%s.%s()' % (o._pv_uid, name), *(sorts + [rs]))
+            r = wrap(f(*(list(o._pv_index) + terms)))
+            if isinstance(r, SInt) and m.returns.lo is not None:
+                st.assume(r.t >= m.returns.lo)
+            if m.may_raise and key is not None:
+                # the first outcome (here: a value) is the outcome of every later call with these arguments
+                o._pv_attrs[key] = r
         else:
-            r = m.returns.make(interp, base)
-        o._pv_attrs[key] = r
+            key = ('__call__', name, tuple(z3.simplify(to_z3(a)).sexpr() if isinstance(a, (Sym, int, str, bool))
+                                            and not isinstance(a, (SOpt, SChoice, SList)) else id(a) for a in args))
+            if key in o._pv_attrs:
+                return o._pv_attrs[key]
+            if o._pv_index and not args and m.returns is not None and not isinstance(m.returns, Iface):
+                # result of a pure zero-argument method of an indexed object: a function of the index
+                r = _indexed_scalar(interp, o, name + '()', m.returns)
+            elif scalar_args and isinstance(m.returns, Iface) and (args or o._pv_index):
+                # structured result of a pure method: an opaque object indexed by (object index, arguments),
+                # i.e. its attributes are functions of the arguments
+                iface = m.returns.iface() if isinstance(m.returns.iface, types.FunctionType) else m.returns.iface
+                r = new_opaque(interp, iface, '%s.%s()' % (o._pv_uid, name),
+                               index=tuple(o._pv_index) + tuple(to_z3(a) for a in args))
+            elif m.returns is not None and args and all(isinstance(a, (SInt, SBool, SStr, int, str, bool, Opaque))
+                                                        for a in args) \
+                    and (o._pv_index or any(isinstance(a, Opaque) and a._pv_index for a in args)):
+                # a function of (object, arguments) where arguments are scalars or (indexed) opaque objects:
+                # the indices of the opaque arguments are arguments of the function(s) standing for the result
+                name_parts, idx_terms = [], list(o._pv_index)
+                for a in args:
+                    if isinstance(a, Opaque):
+                        name_parts.append(a._pv_uid)
+                        idx_terms.extend(a._pv_index)
+                    else:
+                        idx_terms.append(to_z3(a))
+                r = indexed_value(interp, m.returns, '%s.%s(%s)' % (o._pv_uid, name, ','.join(name_parts)),
+                                  tuple(idx_terms))
+            else:
+                r = m.returns.make(interp, '%s.%s()' % (o._pv_uid, name)) if m.returns is not None else None
+            o._pv_attrs[key] = r
     else:
         r = m.returns.make(interp, '%s.%s()' % (o._pv_uid, name)) if m.returns is not None else None
     if m.ensures is not None:
@@ -934,13 +1116,29 @@ def call_opaque_method(interp, o, name, m, args, kwargs):
     return r
 
 
+def _pure_arg_terms(interp, args):
+    from . import models
+    out = []
+    for a in args:
+        if isinstance(a, (SOpt, SChoice)):
+            return None
+        if isinstance(a, models.SMap):
+            out.extend(a.terms())
+            continue
+        t = models.term_of_value(a)
+        if t is None:
+            return None
+        out.append(t)
+    return out
+
+
 # ============================================================================ contracts
 
 class Contract:
     def __init__(self, qname, params=None, ghosts=None, requires=None, returns=None, ensures=None,
                  raises=None, may_raise=(), raises_only=None, modifies=None, props=(), setup=None,
                  old=None, pure_result=False, notes='', concretize=None, replay=None, trusted=False,
-                 cover=True, inline=False, event=None, yields=None, shared=False):
+                 cover=True, inline=False, event=None, yields=None, shared=False, locals=None):
         self.qname = qname
         self.params = params or {}
         self.ghosts = ghosts or {}
@@ -950,7 +1148,12 @@ class Contract:
         self.raises = raises or {}          # {ExcClass: {'when': pred or None, 'ensures': pred or None}}
         self.may_raise = tuple(may_raise)   # exception classes the function may raise non-deterministically
         self.raises_only = raises_only      # tuple of exception classes or None (= not checked)
-        self.modifies = modifies
+        # call sites: parameters (or 'param.attr.attr' paths) that are mutable symbolic lists / iterators whose
+        # contents the function changes: havocked between `requires`/`old` and `ensures`
+        self.modifies = modifies if isinstance(modifies, dict) else tuple(modifies or ())
+        # {local name: MListOf(...)}: a list literal assigned to this local is represented as a symbolic
+        # mutable list from the start (needed when the list is later handed to a contract that modifies it)
+        self.locals = locals or {}
         self.props = tuple(props)
         self.setup = setup                  # optional: (interp) -> dict of extra ghost bindings / state
         self.old = old                      # optional: callable(args...) -> snapshot, evaluated before the call
@@ -989,9 +1192,10 @@ class Module:
         self.models = {}
         self.checks = []       # extra obligation generators: (name, fn(ctx))
         # contracts of OTHER sidecar modules at call sites of this module's functions:
-        #   'apply' (default) use them; 'fit' only when the arguments have the shapes the contract is stated
-        #   for, otherwise the real body is interpreted; 'ignore' never (always interpret the body)
-        self.foreign_contracts = 'apply'
+        #   'imports' (default) use the contracts of the sidecar modules this module imports (it was written
+        #   against them) and interpret the real body otherwise; 'apply' use every contract; 'fit' only when
+        #   the arguments have the shapes the contract is stated for; 'ignore' never
+        self.foreign_contracts = 'imports'
         self.bounded_checks = []   # bounded stand-ins: (name, fn(ctx)) -- never counted as proved
         self.transparent = []
         self.assumptions = []
